@@ -1,5 +1,6 @@
 import RR.Proof.Sched
 import RR.Proof.SchedTerm
+import RR.Proof.KpnRun
 
 /-!
 # C06 — the single-threaded runner returns only at quiescence
@@ -81,5 +82,17 @@ through one of its three exits — cancelled, a block's error, or a quiet pass. 
 theorem c06_terminates (scripts : List Script) (cancelAt : Option Nat) :
     (stRun scripts cancelAt).1 ≠ .outOfFuel :=
   stRun_terminates scripts cancelAt
+
+/-- **The reference result, for every order of calls.** The single-threaded runner is one particular schedule of
+block steps (passes over the blocks in add order, repeated): whatever the add order, the stream sizes and the
+amounts each call moves, a run that ends with everything consumed and emitted — which is what `run()` returning
+at quiescence means for blocks with truthful verdicts (C09) — has computed the sequential reference execution on
+every stream, in particular on every sink's input. (Same theorem as C05's: the graph layer does not depend on
+which runner produced the schedule.) -/
+theorem c06_every_schedule_result (nodes : List Kpn.Node)
+    (hw : ∀ m, (hm : m < nodes.length) → ∀ i ∈ nodes[m].ins, i < Kpn.base nodes m)
+    (s : Kpn.GState) (r : Kpn.Run nodes ⟨List.replicate (Kpn.base nodes nodes.length) [], []⟩ s)
+    (hall : Kpn.AllConsumed nodes s) : s.h = Kpn.eval nodes [] :=
+  Kpn.run_terminal nodes hw s r hall
 
 end RR.Props.C06
